@@ -224,6 +224,13 @@ def run(c):
     for s in ("${env:U}", "${env:V}", "${env:W}", "${env:Y}", "a${env:W}"):
         nid += 1
         lines.append(json.dumps({"kind": "exp", "id": nid, "tab": "TC", "def": False, "s": s, "adm": [err], "pred": [err, err], "kd": False}))
+    # "... reporting an error for references whose name itself contains $": scheme-less references with a default scheme
+    # whose provider does not validate names itself (table TD: served by the driver's own provider; the stock env provider
+    # rejects such names on its own, which would hide a resolver that stopped checking -- seeded change C12-9)
+    lines.insert(0, json.dumps({"kind": "table", "name": "TD", "env": {"Z": "plain"}}))
+    for s in ("${A$B}", "${$A}", "x${A$$B}y"):
+        nid += 1
+        lines.append(json.dumps({"kind": "exp", "id": nid, "tab": "TD", "def": True, "s": s, "adm": [err], "pred": [err, err], "kd": False}))
     # non-vacuity of the enumeration: every kind of outcome the statement talks about occurs
     kinds = dict(error=0, typed=0, container=0, text=0, several=ndoubt, known=sum(1 for k in pred if pred[k]["kd"]))
     for key in adm:
